@@ -38,9 +38,22 @@ class Model:
         self.handles = {}  # (actor, handle) -> oid
         self.transit = []  # [bytes, oid]
 
+    def _pyalive(self, alive):
+        """Objects whose Python object exists in the server: the hosted ones, plus those owned by an existing Box (Box.own
+        stays referenced by the Box even when it is not hosted at the moment, and keeps the proxies stored in it alive)."""
+        py = set(alive)
+        changed = True
+        while changed:
+            changed = False
+            for o, d in self.objs.items():
+                if o not in py and d.get('owner') in py:
+                    py.add(o)
+                    changed = True
+        return py
+
     def count(self, oid, alive):
         n = sum(1 for o in self.handles.values() if o == oid) + sum(1 for _, o in self.transit if o == oid)
-        for c in alive:
+        for c in self._pyalive(alive):
             n += self.objs[c]['holds'].count(oid)
         return n
 
@@ -61,8 +74,9 @@ class Model:
 
     def sweep(self):
         alive = self.alive()
+        py = self._pyalive(alive)
         for o in list(self.objs):
-            if o not in alive:
+            if o not in py:
                 del self.objs[o]
 
 
@@ -217,7 +231,7 @@ class World:
 
 
 OPS = ['create', 'create', 'copy', 'hold', 'unpickle', 'unpickle', 'nest', 'nest', 'unnest', 'fetch', 'drop', 'drop', 'child_arg', 'child_queue', 'managed',
-       'agent_exit', 'shm', 'use']
+       'managed_same', 'managed_same', 'agent_exit', 'shm', 'use']
 
 
 def step(w: World, i):
@@ -402,9 +416,35 @@ def step(w: World, i):
             w.viol.append({'mech': 'refcount/managed-return-not-a-proxy', 'msg': f'Box.{meth} returned {r} instead of a live proxy'})
             return 'managed:wrong'
         m.handles[(a, h2)] = r[1]
-        m.objs[r[1]] = {'type': typ, 'holds': [], 'shm': None, 'keys': []}
+        if r[1] not in m.objs:
+            m.objs[r[1]] = {'type': typ, 'holds': [], 'shm': None, 'keys': []}
         w.obs['managed_returns'] += 1
         return f'managed:{typ}'
+    if op == 'managed_same':
+        # a hosted method returns managed(x) for an x that lives on inside the server: repeated calls (from any client process) must
+        # add references to the same hosted object, not restart its count
+        a = rng.choice(actors)
+        boxes = w.handles_of(a, types=('box',))
+        if not boxes:
+            return None
+        hb, h2 = rng.choice(boxes), w.new_handle()
+        r = w.call(a, hb, 'share_own', [], None, h2)
+        if r[0] != 'proxy':
+            w.viol.append({'mech': 'refcount/managed-return-not-a-proxy', 'msg': f'Box.share_own returned {r} instead of a live proxy'})
+            return 'managed_same:wrong'
+        boid = m.handles[(a, hb)]
+        prev = m.objs[boid].get('own_oid')
+        if prev is not None and prev in m.alive() and r[1] != prev:
+            w.viol.append({'mech': 'refcount/same-object-hosted-twice', 'msg': f'the same server-side object was handed out under a new id {r[1]} while {prev} is still hosted'})
+            return 'managed_same:wrong'
+        m.handles[(a, h2)] = r[1]
+        if r[1] not in m.objs:
+            m.objs[r[1]] = {'type': 'list', 'holds': [], 'shm': None, 'keys': []}
+        m.objs[r[1]]['owner'] = boid
+        m.objs[boid]['own_oid'] = r[1]
+        w.obs['managed_returns'] += 1
+        w.obs['same_object_rehosted'] = w.obs.get('same_object_rehosted', 0) + (1 if prev == r[1] else 0)
+        return 'managed_same:list'
     if op == 'agent_exit':
         if w.rng.random() < 0.6:
             return None
